@@ -189,11 +189,11 @@ def step (st : St) (toks : List String) : St × String :=
         | _, _ => (st, "no:exit")
       | _, _ => bad
     | _, _, _ => bad
-  | ["sink", ct, pfx, tep, dz, data] =>
-    match ofHex? pfx, bool? tep, bool? dz, ofHex? data with
-    | some pfx, some tep, some dz, some data =>
+  | ["sink", ct, pfx, tep, dz, data, ids] =>
+    match ofHex? pfx, bool? tep, bool? dz, ofHex? data, natList? ids with
+    | some pfx, some tep, some dz, some data, some ids =>
       let own : Option CType := if ct == "-" then none else parseCType ct
-      let r := match onDataSink own true true pfx tep dz data with
+      let r := match onDataSink own true true pfx tep dz data (ids.map UInt8.ofNat) with
         | .raw => "raw"
         | .ownPacket => "ownPacket"
         | .otherCommunity => "otherCommunity"
@@ -202,7 +202,7 @@ def step (st : St) (toks : List String) : St × String :=
         | .exitSocket => "exitSocket"
         | .droppedZeroDest => "dropped"
       (st, r)
-    | _, _, _, _ => bad
+    | _, _, _, _, _ => bad
   | ["sink2", ct, sip, sport, hip, hport, pfx, tep, dz, data] =>
     match sip.toNat?, sport.toNat?, hip.toNat?, hport.toNat?, ofHex? pfx, bool? tep, bool? dz, ofHex? data with
     | some sip, some sport, some hip, some hport, some pfx, some tep, some dz, some data =>
